@@ -149,8 +149,10 @@ func CacheURL(pubURL, cacheURL *url.URL, contentType string) (*url.URL, error) {
 	}
 	pathComponents = append(pathComponents, url.PathEscape(pubURL.Hostname()))
 	// Finally, we append the remainder of the original escaped path from
-	// the publisher URL.
-	pathComponents = append(pathComponents, pubURL.EscapedPath())
+	// the publisher URL. Its dot segments are resolved against the
+	// publisher URL's own root first (RFC 3986 section 5.2.4), so that a
+	// ".." cannot remove the components added above.
+	pathComponents = append(pathComponents, path.Join("/", pubURL.EscapedPath()))
 
 	resultRawPath := path.Join(pathComponents...)
 	resultPath, err := url.PathUnescape(resultRawPath)
